@@ -34,7 +34,8 @@ fn text_op(path: &str, bytes: &[u8]) -> Op {
 pub fn make_base(pool: &Pool, rng: &mut Rng, idx: usize, small_only: bool) -> Base {
     let layout = idx % 4;
     let texts = if small_only { pool.tiny() } else { pool.valid_small() };
-    let report = rng.chance(1, 4);
+    // two of every eight bases always exercise the report writer, whatever the seed
+    let report = rng.chance(1, 4) || idx % 8 == 1 || idx % 8 == 3;
     let comments = rng.chance(1, 6);
     let no_ws = rng.chance(1, 6);
     let mk = |entry: &str, path: Option<&str>, force: bool| CallSpec {
